@@ -507,6 +507,7 @@ func (w *world) close() {
 		c.close()
 	}
 	w.api.CloseHijackedConnections()
+	httpClient.CloseIdleConnections()
 	w.srv.Close()
 }
 
